@@ -1,5 +1,6 @@
 import Poulpy.Model.CkksData
 import Poulpy.Model.Core.Mul
+import Poulpy.Model.Core.Ks
 /-!
 # CKKS evaluator: data path of the multiplications and of the composites (C16)
 
@@ -159,6 +160,50 @@ def dDotPt (env : Env) (N : Nat) (big : Bool) (dst : DCt) (as : List DCt) (pt : 
       dAccumulate env N (dMulPtInto env N big dst a0 pt p0)
         (rest.map (fun (ap : DCt × Col) => fun t => dMulPtInto env N big t ap.1 pt ap.2))
 
+/-! ## rotation and conjugation (`leveled/default/{rotate,conjugate}.rs`) -/
+
+/-- the automorphism keys of a run: rotation index `k` ↦ key of `galois_element(k)`; `conj` the key of `-1` -/
+structure AutKeys where
+  rot : List (Int × Ks.Key)
+  conj : Option Ks.Key
+
+def AutKeys.get (ks : AutKeys) (k : Int) : Option Ks.Key := (ks.rot.find? (fun p => p.1 == k)).map (·.2)
+
+/-- `glwe_automorphism(dst, a, key)` resp. `glwe_lsh(dst, a, offset)` + `glwe_automorphism_assign(dst, key)`, on C03's executable
+model `Ks.automorphism` (key switch including the radix conversions, then `vec_znx_automorphism_assign(key.p)` on every column) -/
+def autData (env : Env) (N : Nat) (big : Bool) (key : Ks.Key) (dst a : DCt) : Outcome GLWE :=
+  if offsetUnary env dst.ct a.ct ≠ 0 then
+    bind (glweLsh N dst.g a.g (unaryShift env dst.ct a.ct 0)) fun g1 =>
+      Ks.automorphism big g1.base2k g1.size g1.rank g1 key
+  else Ks.automorphism big dst.g.base2k dst.g.size dst.g.rank a.g key
+
+/-- `ckks_rotate_into(dst, src, k, keys)` -/
+def dRotateInto (env : Env) (N : Nat) (big : Bool) (ks : AutKeys) (dst a : DCt) (k : Int) : Outcome DCt :=
+  withMeta (rotateInto env dst.ct a.ct k) fun m =>
+    match ks.get k with
+    | none => .panic "model"
+    | some key => bind (autData env N big key dst a) fun g' => .ok ⟨g', m⟩
+
+/-- `ckks_rotate_assign(dst, k, keys)`: `glwe_automorphism_assign` -/
+def dRotateAssign (env : Env) (_N : Nat) (big : Bool) (ks : AutKeys) (c : DCt) (k : Int) : Outcome DCt :=
+  withMeta (rotateAssign env c.ct k) fun m =>
+    match ks.get k with
+    | none => .panic "model"
+    | some key => bind (Ks.automorphism big c.g.base2k c.g.size c.g.rank c.g key) fun g' => .ok ⟨g', m⟩
+
+/-- `ckks_conjugate_into(dst, src, key)` (metadata of `mul_pow2_into` with `bits = 0`) -/
+def dConjInto (env : Env) (N : Nat) (big : Bool) (ks : AutKeys) (dst a : DCt) : Outcome DCt :=
+  withMeta (mulPow2Into env dst.ct a.ct 0) fun m =>
+    match ks.conj with
+    | none => .panic "model"
+    | some key => bind (autData env N big key dst a) fun g' => .ok ⟨g', m⟩
+
+/-- `ckks_conjugate_assign(dst, key)` -/
+def dConjAssign (_env : Env) (_N : Nat) (big : Bool) (ks : AutKeys) (c : DCt) : Outcome DCt :=
+  match ks.conj with
+  | none => .panic "model"
+  | some key => bind (Ks.automorphism big c.g.base2k c.g.size c.g.rank c.g key) fun g' => .ok ⟨g', c.md⟩
+
 /-! ## programs with multiplications and composites (executed and tied; the linear calls are `dstep`) -/
 
 inductive XOp where
@@ -172,6 +217,10 @@ inductive XOp where
   | addMany (d : Nat) (as : List Nat)
   | dotCt (d : Nat) (as bs : List Nat)
   | dotPt (d : Nat) (as : List Nat) (pt : Pt) (pgs : List Col)
+  | rot (d a : Nat) (k : Int)
+  | rotAssign (d : Nat) (k : Int)
+  | conj (d a : Nat)
+  | conjAssign (d : Nat)
 deriving Repr
 
 /-- all source slots exist and none is the destination -/
@@ -189,7 +238,7 @@ def dopN (pool : DPool) (d : Nat) (as : List Nat) (f : DCt → List DCt → Outc
   | some cd, some cs => dput pool d (f cd cs)
   | _, _ => .err Err.badSlot.toString
 
-def xstep (env : Env) (N : Nat) (mk : MulKey) (pool : DPool) : XOp → Outcome DPool
+def xstep (env : Env) (N : Nat) (mk : MulKey) (ak : AutKeys) (pool : DPool) : XOp → Outcome DPool
   | .lin op => dstep env N pool op
   | .mul d a b => dop3 pool d a b (dMulInto env N mk)
   | .mulAssign d a => dop2 pool d a (fun cd ca => dMulInto env N mk cd cd ca)
@@ -203,5 +252,9 @@ def xstep (env : Env) (N : Nat) (mk : MulKey) (pool : DPool) : XOp → Outcome D
     | some cd, some xs, some ys => dput pool d (dDotCt env N mk cd xs ys)
     | _, _, _ => .err Err.badSlot.toString
   | .dotPt d as pt pgs => dopN pool d as (fun cd cs => dDotPt env N mk.big cd cs pt pgs)
+  | .rot d a k => dop2 pool d a (fun cd ca => dRotateInto env N mk.big ak cd ca k)
+  | .rotAssign d k => dop1 pool d (fun cd => dRotateAssign env N mk.big ak cd k)
+  | .conj d a => dop2 pool d a (dConjInto env N mk.big ak)
+  | .conjAssign d => dop1 pool d (dConjAssign env N mk.big ak)
 
 end Ckks
